@@ -17,6 +17,11 @@ def main():
     ap.add_argument('--replay', default=None)
     a = ap.parse_args()
     seed = int(os.environ.get('VERIF_SEED', '1') or 1)
+    if a.replay and not os.environ.get('VERIF_OUT'):
+        # a replay is a diagnosis, not a check run: it must not overwrite the evidence of the property
+        import tempfile
+        a.replay = os.path.abspath(a.replay)
+        os.environ['VERIF_OUT'] = tempfile.mkdtemp(prefix='verif-replay-')
     import vlib
     try:
         mod = importlib.import_module(a.pid.lower())
